@@ -93,6 +93,7 @@ func init() {
 							}
 							st.Execs++
 							kase := map[string]interface{}{"input": fmt.Sprintf("%x", cur), "level": lvl, "enc": enc}
+							c.Sample(kase)
 							if err != nil {
 								c.Violation("all-strings", "encode-error-"+enc, fmt.Sprintf("%v", err), nil, kase, nil)
 								continue
@@ -149,6 +150,7 @@ func init() {
 						}
 						st.Execs++
 						kase := map[string]interface{}{"family": name, "len": n, "enc": enc, "ratio": float64(n) / float64(len(stream)+1)}
+						c.Sample(kase)
 						out, err, pan, hung := guarded(func() ([]byte, error) { return srv.Decompress(enc, stream) })
 						switch {
 						case pan != "":
